@@ -37,6 +37,14 @@ def _true():
     return True
 
 
+def _baton():
+    """a binary semaphore, initially taken: a raw lock released by one thread and acquired by
+    another (strictly alternating), much cheaper than threading.Semaphore"""
+    b = _th.Lock()
+    b.acquire()
+    return b
+
+
 class Pending(object):
     __slots__ = ("label", "enabled", "timeout", "fireable", "obj")
 
@@ -66,8 +74,8 @@ class CThread(object):
         self.daemon = daemon
         self.shim = shim              # the shim Thread object standing for it (current_thread())
         self.index = index
-        self.go = _th.Semaphore(0)
-        self.booted = _th.Semaphore(0)
+        self.go = _baton()
+        self.booted = _baton()
         self.booting = True
         self.pending = None
         self.fire = False
@@ -162,7 +170,7 @@ class Controller(object):
         self.wait_daemons = wait_daemons
         self.threads = []
         self._by_ident = {}
-        self._back = _th.Semaphore(0)
+        self._back = _baton()
         self._aborting = False
         self._running = False
         self._finished_run = False
